@@ -328,6 +328,16 @@ var witnesses = []fw.Witness{
 		}
 		return ""
 	}},
+	{Prop: "C12", Name: "nil-map-key-and-call-of-nil-value", Run: func() string {
+		v := jet.VarMap{}
+		v.Set("m", map[string]int{"a": 1})
+		for _, src := range []string{"\n{{ m[nil] }}", "\n{{ v, ok := m[nil] }}", "\n{{ m.absent(1) }}", "\n{{ 1 + m.absent(1) }}"} {
+			if msg := werr(wone(src, v, nil), `"/t.jet":2`); msg != "" {
+				return src + ": " + msg
+			}
+		}
+		return ""
+	}},
 	{Prop: "C12", Name: "range-assign-form-with-underscore", Run: func() string {
 		v := jet.VarMap{}
 		v.Set("xs", []string{"a", "b"})
